@@ -77,11 +77,37 @@ PROPS = {
                                  "Plugin.FullSource outside the modelled url.Parse domain is kept as written by the model (never generated for signing)"],
         explanation="Serialiser injectivity (left-to-right, delimiter-initial rests), canonicalisation = forgetting member order, payload-level injectivity and invariances; real payload bytes vs model; must-collide / must-not-collide variant search on the implementation.",
     ),
+    "C01": dict(
+        level="proof", gen=True, corr_name="Sign/Verify bookkeeping (driver mode sig: verify)",
+        trusted_base=COMMON_TB + ["abstract signature scheme: correctness, A1 (a signature verifies only for the signed message) and A2 (and only under the signing key) are *hypotheses* carried by the theorems (structure fields, a toy instance shows consistency); that JWS with EdDSA/ES512/PS512/ES256 satisfies them is a cryptographic assumption, not proved (C01_crypto_partial); the harness signs and verifies with real keys of all four kinds",
+                                 "signing tables regenerated from signature/sign.go and pipeline_invariants.go (Gen/Signing) and checked equal to the model's tables (C01_signing_tables)",
+                                 "payload bytes: see C14; JSON marshalling of plugins/matrix: Marshal model, differentially checked byte-for-byte through the payload"],
+        explanation="Soundness of verification against every single-point mutation class (via A1/A2 + payload injectivity C14), completeness for the honest signature, field-list order irrelevance; mutation matrix on the real Verify with all key kinds vs the model run with the recording scheme.",
+    ),
+    "C06": dict(
+        level="proof", gen=True, modules=["C06"], corr_name="SignSteps over step trees (driver mode sig: signsteps)",
+        trusted_base=COMMON_TB + ["abstract signature scheme: correctness, A1 (a signature verifies only for the signed message) and A2 (and only under the signing key) are *hypotheses* carried by the theorems (structure fields, a toy instance shows consistency); that JWS with EdDSA/ES512/PS512/ES256 satisfies them is a cryptographic assumption, not proved (C01_crypto_partial); the harness signs and verifies with real keys of all four kinds",
+                                 "signing tables regenerated from signature/sign.go and pipeline_invariants.go (Gen/Signing) and checked equal to the model's tables (C01_signing_tables)",
+                                 "payload bytes: see C14; JSON marshalling of plugins/matrix: Marshal model, differentially checked byte-for-byte through the payload"],
+        explanation="Induction over the nested step type: success iff no unknown step at any depth; only signatures change; every command step gets exactly sign's record (algorithm, sorted mandatory + unshadowed env:: fields) which verifies; tree correspondence incl. caller-env immutability and per-step verification on the implementation.",
+    ),
 }
 
 NOT_APPLICABLE = {}
 
 MANIFEST_TEXT = {
+    "C01": dict(
+        text="Kernel-checked proofs (Lean 4) over a mirror of Sign/Verify/ValuesForFields/requireKeys and an abstract signature scheme with the idealised unforgeability hypotheses A1/A2: if a record carrying a genuine signature value verifies against a presented step, env, repository URL, record and key, then the key is the signing key, the algorithm name, command, repository URL, step env, plugin sequence (canonical sources and configs, in order), matrix and every signed pipeline env variable equal what was signed and the field list names exactly the signed fields; dropping a mandatory field, garbage or empty field lists fail outright; the honest signature verifies under any env extending the pipeline env; reordering/duplicating the field list is not a semantic change. Uses the payload injectivity of C14. Tied by a mutation matrix (about 45 single-point mutation classes) on the real Verify with EdDSA, ES512, PS512 JWKs and an ES256 crypto.Signer against the model with a recording scheme, and by regenerated signing tables.",
+        design_ref="DESIGN.md §6 C01",
+        note="Trusted: Lean kernel; A1/A2/correctness for the real algorithms are cryptographic assumptions (partial: exercised with real keys, not proved); payload model (C14); table translator; the correspondence.",
+        technique="Lean 4 proof (soundness/completeness of the verification bookkeeping over an abstract scheme, using serialiser injectivity) + mutation-matrix correspondence on real keys",
+    ),
+    "C06": dict(
+        text="Kernel-checked proofs (Lean 4) by induction over the nested step type: SignSteps succeeds exactly when no step of unknown kind occurs at any position or depth; on success nothing but signatures changes, and every command step at every depth carries the record Sign makes for it - the key's algorithm and, as field list, the five mandatory fields plus env::NAME for each pipeline env variable not shadowed by the step's own env, sorted - which verifies under the matching public key for any env extending the pipeline env; wait/input/trigger steps are untouched. The env argument is a value in the model; the correspondence checks on the implementation that the caller's map is not modified. Tied by correspondence on generated step trees (groups to depth 4, unknown steps at every position and depth, overlapping envs, all key kinds).",
+        design_ref="DESIGN.md §6 C06",
+        note="Trusted: as C01; 'does not modify the caller's env map' is checked on the implementation by the harness (the model is pure).",
+        technique="Lean 4 proof (structural induction over the step tree, reusing C01 completeness) + tree correspondence",
+    ),
     "C14": dict(
         text="Kernel-checked proofs (Lean 4) about a model of the signed byte string (value tree of the JSON marshalling, RFC 8785 canonical serialisation): the serialiser is injective on well-formed values (no characters can move between adjacent fields, key and value, or nesting levels), canonicalisation forgets exactly the order of object members, equal payloads imply equal algorithm and field-by-field equal values (env:: entries included, which can never collide with step fields), and the payload is invariant under map population order, nil versus empty env/plugins/matrix and canonical plugin source spelling. Tied to the code by comparing the model's bytes with the real payload captured from Sign and Verify for every key kind, and by a collision search on re-spellings (must collide) and boundary-shifting / single-point variants (must not).",
         design_ref="DESIGN.md §6 C14",
